@@ -459,3 +459,77 @@ def rule_allene_reference_choice(ck, repo, R):
                       f'{f.qualname}: `{src(n)}` iterates `{src(it)}` and tests membership in `{src(cont)}`; the reference substituent must be the first element of '
                       f'`{seqname}[terminal]` (written order) found in the environment', file=f.file, line=n.lineno, func=f.qualname, construct=src(n))
     ck.floor(R, 4)
+
+
+def rule_not_bond_complement(ck, repo, R):
+    """SMARTS `!<bond>`: the order list stored for a negated bond symbol is the complement of that symbol's order within the four ordinary orders"""
+    ck.rule(R, 'tokenize.not_dict[s] == {1, 2, 3, 4} - {replace_dict[s]} for every bond symbol s that has an ordinary order: `!#` must still match aromatic bonds, etc.')
+    rd = module_literal(repo, TOK, 'replace_dict')
+    nd = module_literal(repo, TOK, 'not_dict')
+    m = repo.module(TOK)
+    line = m.assigns['not_dict'].lineno
+    ordinary = {k for k, v in rd.items() if v in (1, 2, 3, 4)}
+    ck.decide(set(nd) == ordinary, R, 'keys', sorted(nd), f'not_dict has keys {sorted(nd)}; the bond symbols with an ordinary order are {sorted(ordinary)}', file=m.relpath, line=line)
+    for k in sorted(set(nd) & ordinary):
+        want = sorted({1, 2, 3, 4} - {rd[k]})
+        ck.decide(sorted(nd[k]) == want and len(nd[k]) == len(set(nd[k])), R, f'!{k}', nd[k],
+                  f'not_dict[{k!r}] = {nd[k]}: "not {k}" must admit exactly the other ordinary orders {want}', file=m.relpath, line=line, construct=f'not_dict[{k!r}]')
+    ck.floor(R, 5)
+
+
+def rule_list_regex_items(ck, repo, R, specs):
+    """a regex for `ITEM(,ITEM)*` must use the same ITEM before and inside the repetition (the two copies are written out by hand)"""
+    import re._parser as sre
+    ck.rule(R, 'comma-separated list patterns of the CXSMILES reader (cx_fragments: f:a.b.c,d.e ; cx_radicals: ^N:i,j) have the shape PREFIX ITEM (?:,ITEM)*: the ITEM '
+               'inside the repetition is structurally the same sub-pattern as the first ITEM, so that every list element is read with the same grammar')
+    n = 0
+    for mname, var in specs:
+        m = repo.module(mname)
+        e = m.assigns.get(var) if m else None
+        if e is None:
+            continue
+        ck.require(isinstance(e, ast.Call) and e.args and isinstance(e.args[0], ast.Constant) and isinstance(e.args[0].value, str), f'{mname}.{var} is not compile(<literal>)')
+        pat = e.args[0].value
+        try:
+            items = list(sre.parse(pat))
+        except Exception as x:
+            raise AnalysisError(f'{mname}.{var}: pattern does not parse: {x}')
+
+        def flat(seq):
+            out = []
+            for op, av in seq:
+                if op == sre.SUBPATTERN and av[0] is None:
+                    out.extend(flat(av[3]))
+                else:
+                    out.append((op, av))
+            return out
+
+        def dump(seq):
+            out = []
+            for op, av in flat(seq):
+                if op in (sre.MAX_REPEAT, sre.MIN_REPEAT):
+                    out.append((str(op), av[0], str(av[1]), dump(list(av[2]))))
+                elif op == sre.SUBPATTERN:
+                    out.append((str(op), 'group', dump(list(av[3]))))
+                else:
+                    out.append((str(op), repr(av)))
+            return out
+        items = flat(items)
+        while items and items[-1][0] == sre.SUBPATTERN:  # a capture group around the whole list
+            items = items[:-1] + flat(list(items[-1][1][3]))
+        if not (items and items[-1][0] in (sre.MAX_REPEAT, sre.MIN_REPEAT) and items[-1][1][0] == 0):
+            raise AnalysisError(f'{mname}.{var}: pattern `{pat}` does not end in a (?:,ITEM)* repetition')
+        rep = flat(list(items[-1][1][2]))
+        if rep and rep[0][0] == sre.SUBPATTERN:  # a capturing group around ,ITEM
+            rep = flat(list(rep[0][1][3]))
+        if not (rep and rep[0] == (sre.LITERAL, ord(','))):
+            raise AnalysisError(f'{mname}.{var}: the trailing repetition of `{pat}` does not start with a comma')
+        item2 = dump(rep[1:])
+        head = items[:-1]
+        item1 = dump(head)[-len(item2):] if item2 else []
+        n += 1
+        ck.decide(bool(item2) and item1 == item2, R, f'{mname.rsplit(".", 1)[1]}.{var}', pat,
+                  f'{mname}.{var} = `{pat}`: the list element inside the repetition differs from the first element: later elements of the list are read with another grammar '
+                  f'(e.g. `f:0.1,2.3.4` is cut short)', file=m.relpath, line=e.lineno, construct=pat)
+    ck.count(f'{R}: list patterns', n)
+    ck.require(n >= 2, f'{n} list patterns found, 2 confirmed by hand')
